@@ -9,6 +9,9 @@
  *                                fixed seeds (getrandom::fill) are chosen by the caller.
  *   VERIF_CLOCK_OFFSET=<secs>    clock_gettime(CLOCK_REALTIME[_COARSE|_ALARM], CLOCK_TAI),
  *                                gettimeofday() and time() are shifted by that many seconds.
+ *   VERIF_CLOCK_SCALE=<n>        every wall/monotonic clock runs n times faster than real time, counted from
+ *                                process start (elapsed' = n * elapsed): a harness whose trace depends on how
+ *                                much wall-clock time passed behaves differently under n = 1 and n > 1.
  *                                Monotonic clocks are NOT shifted: std::time::Instant exposes only
  *                                differences (a constant shift is unobservable) and shifting them
  *                                would break absolute-deadline futex waits.
@@ -41,6 +44,8 @@ static uint64_t key = 0;
 static int64_t clock_off = 0;
 static uint64_t stream_pos = 0; /* 8-byte blocks handed out so far */
 static uint64_t n_getrandom = 0, n_getrandom_bytes = 0, n_clock = 0, n_urandom_open = 0;
+static long long clock_scale = 1;
+static void init_clock_bases(void);
 
 static uint64_t splitmix(uint64_t x) {
     x += 0x9E3779B97F4A7C15ULL;
@@ -73,6 +78,9 @@ __attribute__((constructor)) static void shim_init(void) {
     }
     const char *o = getenv("VERIF_CLOCK_OFFSET");
     if (o && *o) clock_off = strtoll(o, NULL, 10);
+    const char *sc = getenv("VERIF_CLOCK_SCALE");
+    if (sc && *sc) clock_scale = strtoll(sc, NULL, 10);
+    if (clock_scale > 1) init_clock_bases();
     const char *a = getenv("VERIF_NO_ASLR");
     if (a && *a == '1') {
         int cur = personality(0xffffffffUL);
@@ -216,6 +224,36 @@ OPENAT_WRAPPER(openat64)
 
 /* --------------------------------------------------------------------- clocks */
 
+#define N_CLK 16
+static struct timespec clk_base[N_CLK];
+static int clk_scaled[N_CLK];
+
+static int (*real_clock_gettime_fn(void))(clockid_t, struct timespec *) {
+    static int (*real)(clockid_t, struct timespec *);
+    if (!real) real = (int (*)(clockid_t, struct timespec *))dlsym(RTLD_NEXT, "clock_gettime");
+    return real;
+}
+
+static void init_clock_bases(void) {
+    /* wall and monotonic clocks only (CPU-time clocks are left alone) */
+    const clockid_t ids[] = {CLOCK_REALTIME, CLOCK_MONOTONIC, CLOCK_MONOTONIC_RAW, CLOCK_REALTIME_COARSE, CLOCK_MONOTONIC_COARSE, CLOCK_BOOTTIME, CLOCK_TAI};
+    for (unsigned i = 0; i < sizeof(ids) / sizeof(ids[0]); i++) {
+        clockid_t c = ids[i];
+        if (c >= 0 && c < N_CLK && real_clock_gettime_fn()(c, &clk_base[c]) == 0) clk_scaled[c] = 1;
+    }
+}
+
+static void scale_timespec(clockid_t clk, struct timespec *ts) {
+    if (clock_scale <= 1 || clk < 0 || clk >= N_CLK || !clk_scaled[clk]) return;
+    long long dn = (long long)(ts->tv_sec - clk_base[clk].tv_sec) * 1000000000LL + (long long)(ts->tv_nsec - clk_base[clk].tv_nsec);
+    if (dn < 0) dn = 0;
+    dn *= clock_scale;
+    long long total = (long long)clk_base[clk].tv_nsec + dn;
+    ts->tv_sec = clk_base[clk].tv_sec + (time_t)(total / 1000000000LL);
+    ts->tv_nsec = (long)(total % 1000000000LL);
+    __atomic_fetch_add(&n_clock, 1, __ATOMIC_RELAXED);
+}
+
 static int shifted_clock(clockid_t c) {
     return c == CLOCK_REALTIME || c == CLOCK_REALTIME_COARSE || c == CLOCK_REALTIME_ALARM || c == CLOCK_TAI;
 }
@@ -224,6 +262,7 @@ int clock_gettime(clockid_t clk, struct timespec *ts) {
     static int (*real)(clockid_t, struct timespec *);
     if (!real) real = (int (*)(clockid_t, struct timespec *))dlsym(RTLD_NEXT, "clock_gettime");
     int r = real(clk, ts);
+    if (r == 0) scale_timespec(clk, ts);
     if (r == 0 && clock_off != 0 && shifted_clock(clk)) {
         ts->tv_sec += clock_off;
         __atomic_fetch_add(&n_clock, 1, __ATOMIC_RELAXED);
@@ -235,6 +274,12 @@ int gettimeofday(struct timeval *tv, void *tz) {
     static int (*real)(struct timeval *, void *);
     if (!real) real = (int (*)(struct timeval *, void *))dlsym(RTLD_NEXT, "gettimeofday");
     int r = real(tv, tz);
+    if (r == 0 && clock_scale > 1) {
+        struct timespec ts = {tv->tv_sec, tv->tv_usec * 1000};
+        scale_timespec(CLOCK_REALTIME, &ts);
+        tv->tv_sec = ts.tv_sec;
+        tv->tv_usec = ts.tv_nsec / 1000;
+    }
     if (r == 0 && clock_off != 0) {
         tv->tv_sec += clock_off;
         __atomic_fetch_add(&n_clock, 1, __ATOMIC_RELAXED);
@@ -246,6 +291,11 @@ time_t time(time_t *out) {
     static time_t (*real)(time_t *);
     if (!real) real = (time_t(*)(time_t *))dlsym(RTLD_NEXT, "time");
     time_t t = real(NULL);
+    if (t != (time_t)-1 && clock_scale > 1) {
+        struct timespec ts = {t, 0};
+        scale_timespec(CLOCK_REALTIME, &ts);
+        t = ts.tv_sec;
+    }
     if (t != (time_t)-1 && clock_off != 0) {
         t += clock_off;
         __atomic_fetch_add(&n_clock, 1, __ATOMIC_RELAXED);
